@@ -393,7 +393,7 @@ cgssvx(superlu_options_t *options, SuperMatrix *A, int *perm_c, int *perm_r,
     equil = (options->Equil == YES);
     notran = (options->Trans == NOTRANS);
     if ( nofact ) {
-	*(unsigned char *)equed = 'N';
+	if ( lwork != -1 ) *(unsigned char *)equed = 'N';
 	rowequ = FALSE;
 	colequ = FALSE;
     } else {
@@ -470,6 +470,21 @@ printf("dgssvx: Fact=%4d, Trans=%4d, equed=%c\n",
     if (*info != 0) {
 	i = -(*info);
 	input_error("cgssvx", &i);
+	return;
+    }
+
+    if ( nofact && lwork == -1 ) {
+	/* Size query: report the estimate in info / mem_usage and leave
+	   every other argument as it is. */
+	int    *iwork0;
+	singlecomplex *dwork0;
+	int_t  annz = (A->Stype == SLU_NR) ? ((NRformat *) A->Store)->nnz
+	                                   : ((NCformat *) A->Store)->nnz;
+	*info = cLUMemInit(options->Fact, work, lwork, A->nrow, A->ncol, annz,
+			   sp_ienv(1), sp_ienv(6), L, U, Glu, &iwork0, &dwork0);
+	SUPERLU_FREE(Glu->expanders);
+	Glu->expanders = NULL;
+	mem_usage->total_needed = *info - A->ncol;
 	return;
     }
     
